@@ -22,11 +22,14 @@ pub struct HttpReq {
     pub headers: Vec<(String, Vec<u8>)>,
     /// body as a sequence of chunks (empty vec = no body)
     pub chunks: Vec<Vec<u8>>,
+    /// in-process only: the payload stream reports a transfer error after this many chunks
+    /// (what the HTTP layer does for a corrupt or aborted body)
+    pub fail_after: Option<usize>,
 }
 
 impl HttpReq {
     pub fn new(method: &str, path: &str) -> Self {
-        HttpReq { method: method.into(), path: path.into(), headers: vec![], chunks: vec![] }
+        HttpReq { method: method.into(), path: path.into(), headers: vec![], chunks: vec![], fail_after: None }
     }
     pub fn header(mut self, k: &str, v: &str) -> Self {
         self.headers.push((k.into(), v.as_bytes().to_vec()));
@@ -182,14 +185,18 @@ impl HttpApp {
                 HeaderValue::from_bytes(v).unwrap(),
             ));
         }
-        let mut areq = if req.chunks.len() == 1 {
+        let mut areq = if req.chunks.len() == 1 && req.fail_after.is_none() {
             tr.set_payload(req.chunks[0].clone()).to_request()
         } else {
             tr.to_request()
         };
-        if req.chunks.len() > 1 {
-            let chunks: Vec<Result<bytes::Bytes, actix_web::error::PayloadError>> =
+        if req.chunks.len() > 1 || req.fail_after.is_some() {
+            let mut chunks: Vec<Result<bytes::Bytes, actix_web::error::PayloadError>> =
                 req.chunks.iter().map(|c| Ok(bytes::Bytes::from(c.clone()))).collect();
+            if let Some(n) = req.fail_after {
+                chunks.truncate(n);
+                chunks.push(Err(actix_web::error::PayloadError::Incomplete(None)));
+            }
             *areq.payload() = actix_http::Payload::Stream {
                 payload: Box::pin(futures::stream::iter(chunks)),
             };
